@@ -116,17 +116,30 @@ class Function:
         # like TrigInfo.stop() can't be async (it's called from a __del__ method)
         #
         async def task_reaper(reaper_q):
+            # canceled tasks that haven't finished yet
+            pending = set()
+
+            def task_done(task):
+                pending.discard(task)
+                if not task.cancelled() and task.exception() is not None:
+                    _LOGGER.error("task_reaper: got exception %s", task.exception())
+
             while True:
                 try:
                     cmd = await reaper_q.get()
                     if cmd[0] == "exit":
+                        if pending:
+                            await asyncio.wait(pending)
                         return
                     if cmd[0] == "cancel":
-                        try:
+                        #
+                        # don't wait here until the task has finished (its done callbacks can
+                        # take a while), since that would delay all the later cancel requests
+                        #
+                        if not cmd[1].done():
                             cmd[1].cancel()
-                            await cmd[1]
-                        except asyncio.CancelledError:
-                            pass
+                            pending.add(cmd[1])
+                            cmd[1].add_done_callback(task_done)
                     else:
                         _LOGGER.error("task_reaper: unknown command %s", cmd[0])
                 except asyncio.CancelledError:
